@@ -36,6 +36,15 @@ CHECKS = {
    note="Agent slaves have latency >= 1; zero-latency answers come from a harness FHDL slave with combinational decode only. "
         "Timeouts are C11.",
    tech="deterministic simulation, seeded request/latency schedule search, per-cycle routing invariants + reference-memory history"),
+ "C07": dict(cat="exploration", ref="DESIGN.md 5.C07",
+   text="Real Wishbone Down/Up/Converter, Cache, Remapper, Wishbone2CSR+CSR SRAM, SRAM (classic and registered-feedback "
+        "bursts, read-only, init, narrow memory) and chains of two, driven by a seeded master history (arbitrary byte "
+        "selects, bursts, gaps) over a memory agent with literal latencies; reads compared lane by lane with a reference "
+        "byte memory over translated store addresses, backing store compared after a flush, stray writes and slave-side "
+        "request stability checked. Sampling, not proof.",
+   note="Known findings C07-F1 (cache without valid bits) and C07-F2 (SRAM wrap burst longer than its modulus) are excluded "
+        "by region and replayed; CSR bridge accessed with whole words only.",
+   tech="deterministic simulation, seeded transaction-history and latency search, reference byte-memory (linearizable single master)"),
  "C16": dict(cat="exploration", ref="DESIGN.md 5.C16",
    text="Seeded search over header definitions, data widths, packet lists, valid/ready schedules and selector changes for "
         "Packetizer, Depacketizer, their round trip, PacketFIFO, Arbiter and Dispatcher on the real simulator; outputs "
